@@ -131,7 +131,7 @@ fn value_of(rng: &mut Rng, t: &Ty, defs: &[StructDef]) -> (String, Value) {
         Ty::Map(s) => {
             let mut items = vec![];
             let mut kvs = vec![];
-            for k in ["k", "k.j", "with space"] {
+            for k in ["k", "k.j", "with space", " pad", "pad "] {
                 if rng.chance(2, 3) {
                     let (src, v) = scalar_value(rng, s);
                     items.push(format!("({:?}.to_string(), {src})", k));
@@ -190,7 +190,14 @@ fn random_attrs(rng: &mut Rng, sid: usize, fidx: usize) -> Vec<Attr> {
                 let n = format!("sr{sid}_{fidx}_{k}");
                 Attr { getter: false, metas: vec![json!({ "rename": n })], text: format!("#[serde(rename = {:?})]", n) }
             }
-            4 => Attr { getter: false, metas: vec![json!("other")], text: "#[serde(default)]".into() },
+            4 => {
+                if rng.chance(1, 2) {
+                    Attr { getter: false, metas: vec![json!("other")], text: "#[serde(default)]".into() }
+                } else {
+                    // `skip` in a serde attribute is serde's business: the getter still answers
+                    Attr { getter: false, metas: vec![json!("skip")], text: "#[serde(skip)]".into() }
+                }
+            }
             _ => Attr { getter: false, metas: vec![json!("other")], text: "#[serde(alias = \"zz\")]".into() },
         };
         // serde rejects a repeated attribute
@@ -279,7 +286,7 @@ fn paths_for(rng: &mut Rng, d: &StructDef, defs: &[StructDef]) -> Vec<Vec<String
         }
     }
     collect(d, defs, &mut names);
-    names.extend(["k".to_string(), "k.j".to_string(), "with space".to_string()]);
+    names.extend(["k".to_string(), "k.j".to_string(), "with space".to_string(), " pad".to_string(), "pad ".to_string(), "pad".to_string()]);
     names.sort();
     names.dedup();
     let mut paths: Vec<Vec<String>> = vec![vec![]];
@@ -299,9 +306,7 @@ pub fn gen(tier: &str, seed: u64, out: &mut dyn FnMut(Value)) {
     let mut rng = Rng::new(seed);
     let n = if tier == "thorough" { 300 } else { 60 };
     let defs = gen_defs(&mut rng, n);
-    let mut src = String::from(
-        "// GENERATED by corr gen C08: do not edit\n#![allow(dead_code, unused_imports, unreachable_patterns, non_camel_case_types)]\nuse gene::{FieldGetter, FieldValue};\nuse gene::values::Number;\nuse gene_derive::FieldGetter;\nuse serde::{Deserialize, Serialize};\nuse std::collections::HashMap;\nuse std::path::PathBuf;\n\nfn fvj(v: &Option<FieldValue>) -> serde_json::Value {\n    match v {\n        None => serde_json::Value::Null,\n        Some(FieldValue::String(s)) => serde_json::json!({\"s\": s}),\n        Some(FieldValue::Number(Number::Int(i))) => serde_json::json!({\"i\": i}),\n        Some(FieldValue::Number(Number::Uint(u))) => serde_json::json!({\"u\": u}),\n        Some(FieldValue::Number(Number::Float(_))) => serde_json::json!({\"f\": null}),\n        Some(FieldValue::Bool(b)) => serde_json::json!({\"b\": b}),\n        Some(FieldValue::Some) => serde_json::json!(\"some\"),\n        Some(FieldValue::None) => serde_json::json!(\"none\"),\n    }\n}\n\nfn run<T: FieldGetter>(cid: u64, v: &T, paths: &[&[&str]]) {\n    let outs: Vec<serde_json::Value> = paths.iter().map(|p| {\n        let segs: Vec<String> = p.iter().map(|s| s.to_string()).collect();\n        fvj(&v.get_from_iter(segs.iter()))\n    }).collect();\n    println!(\"{}\", serde_json::json!({\"cid\": cid, \"impl\": outs}));\n}\n\n",
-    );
+    let mut src = String::from(include_str!("c08_header.txt"));
     for d in &defs {
         let generic = d.fields.iter().any(|f| matches!(f.ty, Ty::Generic(_)));
         src.push_str("#[derive(FieldGetter, Serialize, Deserialize, Default)]\n");
